@@ -551,7 +551,7 @@ def r05_6(ctx):
         who_may_call(ctx, name, {"AshProtocol.frame_received"})
 
 
-@rule("R05.7", ["C05", "C10"], "T-ORD", floor=4)
+@rule("R05.7", ["C05", "C10", "C02"], "T-ORD", floor=4)
 def r05_7(ctx):
     """Entering the failed state (and an ERROR frame) stores FAILED, fails every pending acknowledgement future
     that is still open with NcpFailure, and tells the upper layer exactly once with the reason, on every path and
@@ -592,7 +592,9 @@ def r05_7(ctx):
                         bad = "a completed future is completed again"
                     key = f"{fname}@{st},done={done}"
                     if bad:
-                        ctx.violation(f"{fname}", f"{key}: {bad}", func=f, trace=p.trace())
+                        # a raise (or a second completion, which raises InvalidStateError) inside the receive callback also convicts C02
+                        escapes = p.terminal != "return" or (done and setx)
+                        ctx.violation(f"{fname}", f"{key}: {bad}", func=f, trace=p.trace(), props=None if escapes else ("C05", "C10"))
                     else:
                         ctx.ok(1, key)
 
@@ -769,7 +771,7 @@ def r01_3(ctx):
                         f"{cname}: frame_received calls {calls}, must call {want}", func=f, trace=p.trace())
 
 
-@rule("R01.4", ["C01", "C05"], "T-FUN", floor=2)
+@rule("R01.4", ["C01", "C05", "C02"], "T-FUN", floor=2)
 def r01_4(ctx):
     """A NAK fails every open pending send with NotAcked (which the sender turns into an immediate repeat) and
     notifies nobody."""
@@ -790,8 +792,9 @@ def r01_4(ctx):
             good = p.terminal == "return" and not ups and (
                 (done and not sx) or (not done and len(sx) == 1 and sx[0].callee == "fut2.set_exception"
                                       and isinstance(sx[0].args[0], Obj) and sx[0].args[0].cls_name == "NotAcked"))
+            # completing a completed future raises InvalidStateError out of the receive callback: that case also convicts C02
             ctx.require(good, f"nak,done={done}", f"NAK with {'completed' if done else 'open'} pending send: "
-                        f"{[e.brief() for e in sx + ups]}", func=f, trace=p.trace())
+                        f"{[e.brief() for e in sx + ups]}", func=f, trace=p.trace(), props=None if done else ("C01", "C05"))
 
 
 @rule("R04.5", ["C04", "C01"], "T-FUN", floor=1000, tier="thorough")
